@@ -631,6 +631,18 @@ func replayOld(c *vkTamperCtx, m *dns.Msg, future bool) bool {
 
 func init() {
 	vkKinds = append(vkKinds,
+		vkKind{"forge-signer-qname", 0, func(c *vkTamperCtx, m *dns.Msg) bool {
+			// altered data whose RRSIGs claim the query name itself as signer: a name that is no zone
+			// cut has no DS, and "no DS for the signer" must not be read as "insecure"
+			q := zonemodel.Canon(c.q.Name)
+			if c.zone == nil || !c.zone.Mode.Signed() || q == c.zone.Apex || c.q.Qtype == dns.TypeDNSKEY {
+				return false
+			}
+			if !flipIn(m.Answer, false) {
+				return false
+			}
+			return eachSig(m, func(s *dns.RRSIG) { s.SignerName = q })
+		}},
 		vkKind{"replay-expired", 0, func(c *vkTamperCtx, m *dns.Msg) bool { return replayOld(c, m, false) }},
 		vkKind{"replay-future", 0, func(c *vkTamperCtx, m *dns.Msg) bool { return replayOld(c, m, true) }},
 		vkKind{"forge-partial-unsigned", 0, func(c *vkTamperCtx, m *dns.Msg) bool {
